@@ -257,7 +257,9 @@ def check_unify(payload):
                 got_alias = bool(e.query(db, Term("al")))
             except Exception:      # noqa
                 continue
-            exp_alias = apply(("v", vi), sigma) == apply(("v", vj), sigma)
+            def tnorm(t):
+                return ("f", t[1], [tnorm(a) for a in t[2]]) if t[0] == "f" else cnorm(t)
+            exp_alias = tnorm(apply(("v", vi), sigma)) == tnorm(apply(("v", vj), sigma))
             if got_alias != exp_alias:
                 out["violations"].append(("eq:sharing", "after %s = %s: %s == %s is %s, the mgu makes them %s" % (
                     s1, s2, vi, vj, got_alias, "identical" if exp_alias else "different")))
